@@ -14,7 +14,7 @@ RULE = (
     "flush, commit, aspirate_well, dispense_well, reagent_distribution, raw strings and blocks of up to 600 lines appended with list.extend) + a "
     "pre-existing file (absent / shorter / longer than the new content, arbitrary bytes) + path given as str or "
     "pathlib.Path + file name (*.gwl, *.GWL, dotted names; or a name without .gwl that must be refused) + mode: "
-    "explicit save, save twice (growing or shrinking record list), `with` left normally, `with` left by an "
+    "explicit save, save twice (growing or shrinking record list), save again with the same number of records (a record replaced in place; the file overwritten externally), the same worklist object in two with-blocks, `with` left normally, `with` left by an "
     "exception, `with` on a pre-filled worklist. Non-trivial = >= 2 records and (a longer pre-existing file or a "
     "non-ASCII character or a second save); distinct by canonical JSON."
 )
@@ -25,8 +25,8 @@ ASSUMPTIONS = [
 ]
 BUDGET = {"quick": (4, 600), "thorough": (16, 3000)}
 KNOWN_KINDS = {}
-STRATA = ["save", "save-twice", "with", "with-exc", "with-prefilled", "bad-name"]
-REQUIRED_CLASSES = ["mode:save", "mode:save-twice", "mode:with", "mode:with-exc", "mode:with-prefilled", "mode:bad-name", "pre:longer", "pre:shorter", "pre:absent", "non-ascii", "empty-worklist", "path:Path", "path:str"]
+STRATA = ["save", "save-twice", "save-again", "with", "with-twice", "with-exc", "with-prefilled", "bad-name"]
+REQUIRED_CLASSES = ["mode:save", "mode:save-twice", "mode:with", "mode:with-exc", "mode:with-prefilled", "mode:bad-name", "mode:save-again", "mode:with-twice", "pre:longer", "pre:shorter", "pre:absent", "non-ascii", "empty-worklist", "path:Path", "path:str"]
 
 LATIN = [chr(c) for c in list(range(0x20, 0x7F)) + list(range(0xA0, 0x100))]
 LATIN_NS = [c for c in LATIN if c != ";"]
@@ -184,6 +184,35 @@ def check_case(case) -> Obs:
                 records = list(wl)
                 wl.save(arg)
                 _check_file(obs, path, records, "second save")
+        elif mode == "save-again":
+            # the same worklist object saved repeatedly to the same path with the SAME number of records
+            wl = cls()
+            _apply(wl, case["steps"])
+            wl.append("C;first version")
+            wl.save(arg)
+            _check_file(obs, path, list(wl), "first save")
+            wl[-1] = "C;second version with other bytes"
+            records = list(wl)
+            wl.save(arg)
+            _check_file(obs, path, records, "save after replacing a record in place")
+            with open(path, "wb") as fh:
+                fh.write(case["pre_bytes"] * 40)
+            wl.save(arg)
+            _check_file(obs, path, records, "save after the file was overwritten by someone else")
+        elif mode == "with-twice":
+            wl = cls(arg)
+            with wl:
+                _apply(wl, case["steps"])
+                wl.append("C;run 1")
+            first = list(wl)
+            _check_file(obs, path, first, "first with-block")
+            with wl:
+                if len(wl) != 0:
+                    obs.bad("C17/not-empty-on-enter", f"worklist holds {len(wl)} records when the with-block is entered again")
+                _apply(wl, case["steps"])
+                wl.append("C;run 2")
+            records = list(wl)
+            _check_file(obs, path, records, "second with-block of the same worklist object")
         elif mode in ("with", "with-exc", "with-prefilled"):
             class Boom(Exception):
                 pass
